@@ -503,7 +503,7 @@ printf("debug> macros_parse() name_test='%s' %d\n", name_test, index);
     // of the line.
     if (ch == ';' || (ptr > 0 && ch == '/' && macro[ptr-1] == '/'))
     {
-      if (macro[ptr-1] == '/') { ptr--; }
+      if (ptr > 0 && macro[ptr-1] == '/') { ptr--; }
 
       while (true)
       {
@@ -655,6 +655,7 @@ char *macros_expand_params(
     if (ch == '\n' || ch == EOF)
     {
       print_error(asm_context, "Macro expects ')'");
+      asm_context->error = 1;
       return nullptr;
     }
 
@@ -678,6 +679,7 @@ char *macros_expand_params(
   {
     printf("Error: Macro expects %d params, but got only %d at %s:%d.\n",
       param_count, count, asm_context->tokens.filename, asm_context->tokens.line);
+    asm_context->error = 1;
     return nullptr;
   }
 
